@@ -35,7 +35,9 @@ def unbroadcast(array):
         The reshaped array.
     """
 
-    if array.ndim == 0 or not hasattr(array, 'strides'):
+    if array.ndim == 0 or array.size == 0 or not hasattr(array, 'strides'):
+        # (an empty array cannot be made smaller, and replacing its
+        # broadcasted dimensions by 1 would give it elements it doesn't have)
         return array
 
     new_shape = np.where(np.array(array.strides) == 0, 1, array.shape)
